@@ -363,22 +363,24 @@ def imo(c):
 
 # ------------------------------------------------------------------ CAS Registry Number
 def casrn(c):
-    # xxxxxxx-yy-z: two to seven digits (no leading zero), two digits, check digit
-    parts = c.split('-')
-    if len(parts) != 3:
+    # xxxxxxx-yy-z: two to seven digits (no leading zero), hyphen, two digits, hyphen, check digit
+    n = len(c)
+    if n < 7 or n > 12:
         raise Reject()
-    a, b, z = parts
-    if not (2 <= len(a) <= 7) or len(b) != 2 or len(z) != 1:
+    if c[n - 2] != '-' or c[n - 5] != '-':
         raise Reject()
-    if not (_alldigits(a) and _alldigits(b) and _alldigits(z)):
+    a = c[:n - 5]
+    b = c[n - 4:n - 2]
+    z = c[n - 1]
+    if not (_alldigits(a) and _alldigits(b) and _isdigit(z)):
         raise Reject()
     if a[0] == '0':
         raise Reject()
     body = a + b
     total = 0
-    n = len(body)
-    for k in range(n):
-        total = total + (k + 1) * _dv(body[n - 1 - k])
+    k = len(body)
+    for i in range(k):
+        total = total + (i + 1) * _dv(body[k - 1 - i])
     if total % 10 != _dv(z):
         raise Reject()
     return c
